@@ -21,7 +21,11 @@ func AddUnnamedTypes(rootSchema *ischema.ISchema) {
 		inner := types[name].Schema.TypesList()
 		innerNames := make([]string, 0, len(inner))
 		for unnamed := range inner {
-			innerNames = append(innerNames, unnamed)
+			// The named types of a type are its own business: copying them
+			// would replace the types of the same name in the root schema.
+			if len(unnamed) != 0 && unnamed[0] == '#' {
+				innerNames = append(innerNames, unnamed)
+			}
 		}
 		sort.Strings(innerNames)
 
